@@ -135,6 +135,8 @@ def runChk (s : St) (ws : List String) : String :=
     else
       let x := getC s a; let y := getC s b
       s!"{head} clause=p judge={verdict (judgeDc x y false) s!"byte-vs-point-range-captures-{mode}{kind} positions={sa}..{sb}"} corr=- n1={x.length} n2={y.length} mode={mode}{kind}"
+  | ["fl", a, b] =>
+    s!"{head} clause=c judge={verdict (a == b) "reused-cursor-keeps-limit-flag"} corr=- n1={a} n2={b}"
   | ["cl", a, b, k] =>
     let x := getM s a; let y := getM s b
     s!"{head} clause=c judge={verdict (judgeDm x y false) "reused-cursor-ignores-lower-limit"} corr=- n1={x.length} n2={y.length} limit={k}"
@@ -151,7 +153,7 @@ def runChk (s : St) (ws : List String) : String :=
   | ["g", u, d, depth] =>
     let x := getM s u; let y := getM s d
     let full := decide ((x.filter fun m => decide (m.depth ≤ natOf depth)).map Match.key = y.map Match.key)
-    s!"{head} clause=g judge={verdict (judgeG x y (natOf depth)) "start-depth"} corr=- n1={x.length} n2={y.length} complete={full} wild={s.wild}"
+    s!"{head} clause=g judge={verdict (judgeG x y (natOf depth) s.qfree) "start-depth"} corr=- n1={x.length} n2={y.length} complete={full} wild={s.wild}"
   | ["f", u, p] =>
     let x := getM s u; let y := getM s p
     let ok := judgeF miniRegex s.preds s.text x y
